@@ -346,6 +346,19 @@ def judge_c02(d):
 
 def judge_c14(d):
     q, impl, model = d["query"], d["impl"], d["model"]
+    if q.startswith("c14 qtimers "):
+        # states are "closest/conn@deadline,..." after each operation
+        ops = q.split()[4].split(";")
+        for k, st in enumerate(impl.split(" | ")):
+            c, _, ds = st.partition("/")
+            dl = [int(x.split("@")[1]) for x in ds.split(",") if "@" in x]
+            if dl and (c == "-" or int(c) > min(dl)):
+                return ("QUIC multiplexer timer bookkeeping: after %s the loop sleeps until %s although a connection timer is armed for %d "
+                        "(that timer would fire late or never)" % (ops[k] if k < len(ops) else "?", c, min(dl)))
+            if k < len(ops) and ops[k].startswith("tick") and c != (str(min(dl)) if dl else "-"):
+                return ("QUIC multiplexer timer bookkeeping: after the loop iteration %s closest_deadline is %s, the earliest armed "
+                        "deadline is %s" % (ops[k], c, min(dl) if dl else "none"))
+        return None
     if q.startswith("c10 session "):
         # establishment timeout: "c10 session <proto> none - <E> <n> {C <authority hex> <literal> <port> absent delay:<ms> ...}"
         t = q.split()
@@ -765,7 +778,7 @@ PROPS = {
     ),
     "C14": dict(
         retry_on_failure=True,
-        suites=["c14", "c14est", "c14live"],
+        suites=["c14", "c14est", "c14live", "c14qt"],
         judge=judge_c14,
         level="proof",
         rule="the same machinery as C02 with every delay drawn from {0, T/4, T/2, 3T/4, T-1, T, T+1, 5T/4, 2T-1, 2T, 2T+1, 3T}: one-sided "
@@ -779,15 +792,23 @@ PROPS = {
              "silent, stop in the middle of the ClientHello, drip it a byte every 50 ms, send it completely and never continue, or send "
              "a record prefix must be disconnected within [H - 30 ms, 2H + 1.5 s]; clients that complete the handshake (at once, after "
              "H/2) stay connected past 2H and are served a health check; two HTTP/3 sessions on the reverse-proxy host (session timeout 700 ms), "
-             "one whose stream completes and one whose stream fails, must be closed by the endpoint within the timeout + 4 s",
+             "one whose stream completes and one whose stream fails, must be closed by the endpoint within the timeout + 4 s."
+             " QUIC timers (suite c14qt): 3 (thorough 8) rounds of three overlapping HTTP/3 sessions with idle timeouts of 0.4 s, 0.9 s "
+             "and 30 s (one vanishes silently, one closes, one idles on) on the real QUIC listener; the door records every operation on "
+             "the multiplexer's deadline table (arm, remove, loop iteration with what expired and what quiche asked to re-arm) and the "
+             "state it left; the Lean model TT.QuicTimers replays the operations and must reach the same deadline table and "
+             "closest_deadline after each one; the two invariants are also checked directly on the recorded states",
         explanation="theorems idle_not_early, idle_bound_2T, progress_at_deadline_keeps_open, wf_step about the Timer model of "
                     "TT/Model/Pipe.lean; establishment_timeout_reported, establishment_in_time_connected, "
-                    "establishment_timeout_destination_independent about TT.Dispatch.handle (the request path model of C10)",
+                    "establishment_timeout_destination_independent about TT.Dispatch.handle (the request path model of C10); "
+                    "closest_not_after_any_deadline, tick_recomputes, tick_handles_expired, wake_up_makes_progress about TT/Model/QuicTimers.lean",
         trusted=["tokio's timer wheel under the paused clock (ms granularity); with a real clock timers fire late by the scheduling latency, "
                  "which the model's exact clock does not include",
                  "the TLS-handshake timeout is a tokio::time::timeout wrapper around TlsListener::listen and the acceptor: it is not "
                  "modelled, only observed on the live listener with a wall clock (a drop later than 2H + 1.5 s or earlier than H - 30 ms "
                  "is reported; a machine stalled for longer than that would be a false alarm, hence the second run before a failure is believed)",
+                 "QUIC timers: what quiche's on_timeout does and which next timeout it asks for are inputs of the model; that the loop's "
+                 "timer branch is enabled iff closest_deadline is Some, and sleeps until it, is read from the loop (two lines)",
                  "release of the sockets and tasks of an abandoned attempt is observed as the drop of the connector's future (scripted "
                  "connector) and as the close of the client's TCP connection (live listener); file descriptors are not counted"],
         assumptions=["a direction whose peer has already finished is closed after T (not 2T) of silence: within the stated bound",
